@@ -741,6 +741,14 @@ def run(rep, tier, seed):
     items += gen_times(rng, 6000 * scale, zones_list)
     items += gen_date_times(rng, 8000 * scale, zones_list)
     items += gen_durations(rng, 8000 * scale)
+    # zone-less date-times (and times) written inside the hours that the time zones of the environment replica (lib/runner.py
+    # ALT_ENV) and of some everyday server locations skip or repeat: ordinary literals under TZ=UTC, in a gap or an overlap of
+    # the PROCESS's zone there - a zone-less value must read back and equal itself wherever the process runs
+    for s_ in ("2021-10-03T02:15:00", "2021-10-03T02:00:00", "2021-04-04T01:45:00", "2022-10-02T02:29:59.999999999", "2021-03-28T02:30:00", "2021-10-31T02:30:00", "2021-03-14T02:30:00", "2021-11-07T01:30:00",
+               "2021-09-26T02:45:00", "2011-12-30T12:00:00"):
+        items.append(("dt", s_))
+    for s_ in ("02:15:00", "02:30:00", "01:45:00"):
+        items.append(("t", s_))
     rep.extra["whole_minute_offsets_enumerated"] = len(offs) // 2 - 2
     # bases for corruption: valid literals of every kind
     valid = {}
